@@ -167,6 +167,8 @@ pub struct Model {
     pub wake: BTreeSet<usize>,
     pub by_pid: std::collections::HashMap<u16, Vec<usize>>,
     /// number of live op tasks that still own a handle clone
+    /// packet identifiers of the PUBREL packets the implementation wrote since the last comparison
+    pub observed_pubrels: Vec<u16>,
     pub live_handles: usize,
     /// the long-lived worker handle (see `start_on_worker`)
     pub worker_exists: bool,
@@ -230,6 +232,7 @@ impl Model {
             connecting_cmd: "connect",
             wake: BTreeSet::new(),
             by_pid: std::collections::HashMap::new(),
+            observed_pubrels: vec![],
             live_handles: 0,
             worker_exists: false,
             worker_busy: None,
@@ -920,6 +923,20 @@ impl Model {
                                 let res = exp_ack_err("PubrecError", reason, &props);
                                 self.complete(op, ResPat::Exact(res));
                                 self.hit("pubrec-fail");
+                            } else if self.ops[op].alive
+                                && self.ops[op].held
+                                && self.observed_pubrels.contains(&pid)
+                                && !self.write_err
+                                && !self.block_armed
+                            {
+                                // The caller's future has not been polled since, and the PUBREL is on
+                                // the wire all the same: this implementation lets the context finish
+                                // the exchange. C06 only says "exactly one PUBREL, after the PUBREC";
+                                // who sends it is not prescribed - followed.
+                                self.expected.push(Expect::Wire(WirePat::Pubrel { pid }));
+                                self.ops[op].st = St::AwaitComp;
+                                self.sent_log.push((op, true));
+                                self.hit("pubrel-sent");
                             } else if self.ops[op].alive {
                                 self.ops[op].st = St::RecOk;
                                 self.wake.insert(op);
